@@ -350,6 +350,9 @@ def run(ctx):
     longc.sort(key=lambda c: (c[0] not in CORPUS_FOUND, c[1]))
     if q:
         longc = longc[:20]
+    else:
+        # budget: all mate-3 / mate-4 claims up to 400, mate-5 claims (about a minute each) up to 64
+        longc = [c for c in longc if c[1] <= 4][:400] + [c for c in longc if c[1] == 5][:64]
     judged += [(c, "matem %d %s" % (c[1], c[0])) for c in longc]
     ctx.notes["long_claims_judged_by_memo_solver"] = len(longc)
     rc, jr, err = run_lines(model, [j[1] for j in judged], shards=NPROC, timeout=3000)
